@@ -32,6 +32,22 @@ var (
 
 func pick[T any](r *rand.Rand, xs []T) T { return xs[r.Intn(len(xs))] }
 
+// lgHostileNums: label values at the edges of the numeric, duration and byte-size readers (non-finite
+// floats — NaN, Inf, 1e400 — and digit separators are outside the environment models and not generated)
+var lgHostileNums = []string{"1e-400", "1e308", "1.7976931348623157e308", "9223372036854775807", "9223372036854775808", "-9223372036854775808",
+	"18446744073709551615", "18446744073709551616", "99999999999999999999", "+5", "-5", ".5", "5.", "0x10", "1e", "e5", "--5", "5 ", " 5",
+	"2562047h", "2562048h", "9223372036854775807ns", "9223372036854775808ns", "1.5h", ".5s", "1h1", "h", "-1s", "+1s", "1d", "1w", "0", "00", "-0",
+	"16EiB", "15EiB", "18446744073709551615B", "18446744073709551616B", "1.5KB", "1 KB", "1kb", "1KiB", "1Ki", "1E", "1e3KB", "-1KB", "KB", "1 B", "1,5KB",
+	"255.255.255.255", "256.0.0.1", "1.2.3", "1.2.3.4.5", "01.2.3.4", "::1", "fe80::1:2", "1:2:3:4:5:6:7:8", "1:2:3:4:5:6:7", "1.2.3.4/33", "1.2.3.4/0", "1.2.3.4-1.2.3.3"}
+
+// recValue: a label value of a record; one in eight is a hostile number
+func recValue(r *rand.Rand) string {
+	if r.Intn(8) == 0 {
+		return pick(r, lgHostileNums)
+	}
+	return pick(r, lgValues)
+}
+
 func genLine(r *rand.Rand) string {
 	n := 1 + r.Intn(4)
 	ws := make([]string, n)
@@ -412,7 +428,7 @@ func genRecs(r *rand.Rand, stages []LStage, max int) []LRec {
 		for k := 1 + r.Intn(2); k > 0; k-- {
 			var a [][2]string
 			for _, l := range distinctStrings(r, lgLabels, 1+r.Intn(3)) {
-				a = append(a, [2]string{l, pick(r, lgValues)})
+				a = append(a, [2]string{l, recValue(r)})
 			}
 			streams = append(streams, a)
 		}
@@ -445,7 +461,7 @@ func genRecs(r *rand.Rand, stages []LStage, max int) []LRec {
 			rec.Attrs = append([][2]string{}, streams[r.Intn(len(streams))]...)
 		} else {
 			for _, l := range distinctStrings(r, lgLabels, r.Intn(4)) {
-				rec.Attrs = append(rec.Attrs, [2]string{l, pick(r, lgValues)})
+				rec.Attrs = append(rec.Attrs, [2]string{l, recValue(r)})
 			}
 		}
 		recs[i] = rec
